@@ -414,3 +414,52 @@ func (s *relSpec) ownerLit(ok string) string {
 	}
 	return "User{ID:" + key + "}"
 }
+
+// setRelation loads the given records into the relation field of an owner value, with the
+// key columns a loaded child carries.
+func (s *relSpec) setRelation(owner reflect.Value, ok string, ts []targ) {
+	table, key := splitOwner(ok)
+	mk := func(t targ) reflect.Value {
+		v := s.newTarget(t)
+		if s.store == fkTarget {
+			name := "UserID"
+			if s.poly {
+				name = "OwnerID"
+				v.FieldByName("OwnerType").SetString(table)
+			}
+			id := atoi(key)
+			if f := v.FieldByName(name); f.Kind() == reflect.Ptr {
+				f.Set(reflect.ValueOf(&id))
+			} else {
+				f.SetInt(id)
+			}
+		}
+		return v
+	}
+	f := owner.FieldByName(s.field)
+	ft := f.Type()
+	switch ft.Kind() {
+	case reflect.Slice:
+		sl := reflect.MakeSlice(ft, 0, len(ts))
+		for _, t := range ts {
+			if ft.Elem().Kind() == reflect.Ptr {
+				sl = reflect.Append(sl, mk(t).Addr())
+			} else {
+				sl = reflect.Append(sl, mk(t))
+			}
+		}
+		f.Set(sl)
+	case reflect.Ptr:
+		if len(ts) == 0 {
+			f.Set(reflect.Zero(ft))
+		} else {
+			f.Set(mk(ts[0]).Addr())
+		}
+	default:
+		if len(ts) == 0 {
+			f.Set(reflect.Zero(ft))
+		} else {
+			f.Set(mk(ts[0]))
+		}
+	}
+}
